@@ -320,6 +320,10 @@ fn gen_hinted(rng: &mut Prng, emit: &mut dyn FnMut(Value)) {
                 continue; // long URLs: two configurations are enough
             }
             let mut c = json!({"u": hex(u.as_bytes()), "u2": hex(u2.as_bytes()), "kind": kind, "cfg": cfg, "target": hex(b"/t"), "host": null, "headers": []});
+            // the rebuild (request restored without path_and_query_v2) runs under a configuration with the marketing flag flipped
+            let mut c2 = cfg.clone();
+            c2["im"] = json!(!cfg["im"].as_bool().unwrap_or(false));
+            c["cfg2"] = c2;
             if let Some((markers, rhost, host)) = &extra {
                 c["markers"] = markers.clone();
                 if let Some(rh) = rhost {
